@@ -99,6 +99,20 @@ func runTraced(self, dir string, j job) (*runResult, error) {
 	if err != nil {
 		return nil, err
 	}
+	if j.K > 0 {
+		// the call the kill was injected on is NOT applied (killed on entry): it is determined.
+		// It is recognisable when exactly one thread died in a call of that name.
+		idx, cnt := -1, 0
+		for i, b := range inflight {
+			if strings.HasPrefix(b, j.Sys+"(") {
+				idx = i
+				cnt++
+			}
+		}
+		if cnt == 1 {
+			inflight = append(inflight[:idx], inflight[idx+1:]...)
+		}
+	}
 	res.seq, res.inflight, res.killed = seq, inflight, killed
 	for _, rc := range raw {
 		red.feed(rc, &res.acks)
